@@ -23,7 +23,9 @@
                        `ctfTR_q_good` (Q of Algorithm 2 is never Zero() and has the expected vocabulary),
                        `ctfTR_no_internal_error_partial` (Algorithm 3 never raises outside its crash classes),
                        `ctfTR_answers_or_fails`
-  OPEN (stated below): ctfTR_no_internal_error on the crash classes (false on one, open on two), ctfTRu_sound, ctfTR_sound.
+  OPEN (stated below): ctfTR_no_internal_error on the crash classes (false on one, open on two).
+  The VALUE clause is in Y0/Props/C09Sound.lean: `ctfTRu_sound_partial` (Algorithm 2, proved inside the decidable class
+  `ctfSoundClass`), `ctfTR_sound_of_parts` (Algorithm 3, reduced to two named identities); OPEN there: ctfTR_sound.
 
   Reading guide for §5 (definitions in Y0/Lemmas/CtfTrSimplify.lean, CtfTrLine2.lean, CtfTrSigma.lean, CtfTrTotal.lean):
     Reflexive e      := e.any fun p => p.1.ivs.any (·.name == p.1.name)          some event variable is `Y_y`
@@ -386,20 +388,14 @@ theorem transportFactors_all (ds : List Domain) : ∀ (fs : List Event) (qs : Li
               simp [pure, Except.pure] at h; subst h
               exact .cons (sigmaTR_uses_usable_domain _ ds q hr) (transportFactors_all ds fs qs' hr')
 
--- OPEN: ctfTRu_sound / ctfTR_sound (the value clause)
---   theorem ctfTRu_sound (hv : validateU target ds e = .ok ()) (h : ctfTRu target ds e = .ok (some (x, some ev)))
---       (F : Family) (hF : F.SelectionCompatible target Δ)  -- Δ: selection marks and policy variables of each domain
---       (M : Fscm.Model) (hM : M induces F.dom none) (ν : Fscm.BaseValues) (hν : ν.Distinct) :
---       den F.env (ν-values of ev) x = probEventOpt M ν e
---   FALSE of the current code for events that give one variable two values, name one variable in two worlds, bind a
---   literal subscript by a summation, or contain a self-intervened variable (known findings value:two_values,
---   value:multi_world, value:literal_bound, value:reflexive — inherited from C19's factorisation findings).  For the
---   remaining events the plan is the composition theorem `ctfTRu_sound_of_parts`: SIMPLIFY preserves the probability
---   (C19 `simplify_prob_partial`), the ctf-factor factorisation gives P*(W* = w*) = Π_i P*(C_i* = c_i*) (C19
---   `factorisation_shape` + Correa et al. Thm 3), each factor is `Q[C_i]` of the target, `Q[C_i]` is the same in a
---   usable domain (`sigmaTR_uses_usable_domain` + the transportability lemma over `Family.SelectionCompatible`) and is
---   computed from the domain's distribution by IDENTIFY (C17 `tian_sound`).  The exact functional-SCM oracle decides
---   the clause on every run.
+-- The value clause (ctfTRu_sound / ctfTR_sound) is the subject of Y0/Props/C09Sound.lean:
+--   `ctfTRu_sound_partial`      PROVED for every validated input whose simplified event is in the decidable class
+--                               `ctfSoundClass` (no hypothesis about any part of the algorithm is left), for every family
+--                               of functional SCMs compatible with the declared domains (Y0/Spec/CtfFamilySpec.lean);
+--   `ctfTR_sound_of_parts`      Algorithm 3 reduced to two named marginalisation-and-independence identities.
+--   FALSE of the current code outside the class: events that give one variable two values, name one variable in two
+--   worlds, bind a literal subscript by a summation, or contain a self-intervened variable (known findings
+--   value:two_values, value:multi_world, value:literal_bound, value:reflexive — inherited from C19's findings).
 
 /-! ## 5. No other error outside the known crash classes -/
 
